@@ -1434,6 +1434,11 @@ fn walk_module(module: &ir::Module, names: &Names) -> (u64, Vec<String>) {
             for p in &imp.params {
                 if let Some(d) = &p.default_expr {
                     w.expr(d);
+                    // a default argument initialises the parameter: exactly the parameter's (unmodified) type
+                    if let Some(t) = w.ty(d) {
+                        let reg = &module.type_registry;
+                        w.require("default argument", reg.remove_modifier(p.param_type.type_id), reg.remove_modifier(t.0));
+                    }
                 }
             }
             w.block(&imp.scope_block, ret);
@@ -2230,6 +2235,18 @@ pub fn run(args: &Args, out: &mut Out) {
         if let ["C03.type", vars, funcs, ret, t] = f.as_slice() {
             if let (Some(env), Some(t)) = (parse_env(vars, funcs, ret), parse_sx(t)) {
                 r.type_case(&env, &t, out);
+            }
+        }
+    }
+
+    // (4b) default arguments: every parameter type with default expressions of every type (raw programs, oracle only)
+    {
+        let tys = ["int", "uint", "float", "bool", "float3", "int2", "float2x2", "S0", "half"];
+        let exprs = ["1", "1u", "1.5", "true", "1.0f", "float3(1, 2, 3)", "int2(1, 2)", "(S0)0", "g0", "g1", "g2", "float2x2(1, 2, 3, 4)", "(half)1"];
+        for t in tys {
+            for e in exprs {
+                let src = format!("struct S0 {{ int q; }}; static int g0; static float3 g1; static S0 g2; void f({} p = {}) {{}} void t() {{ f(); }}", t, e);
+                r.src_case(&src, out);
             }
         }
     }
